@@ -42,6 +42,9 @@ func (r *Run) unop(fr *frame, instr *ssa.UnOp, x Value) Value {
 	}
 	switch instr.Op {
 	case token.MUL: // load
+		if ref, ok := x.(*SymRef); ok {
+			return ref.load()
+		}
 		p := fr.ptr(x, "load")
 		return copyVal(*p)
 	case token.ARROW:
@@ -59,6 +62,8 @@ func (r *Run) unop(fr *frame, instr *ssa.UnOp, x Value) Value {
 			return tBVNeg(x)
 		case F64:
 			return -x
+		case FSym:
+			return x
 		}
 	case token.XOR:
 		return tBVNot(x.(*Term))
@@ -170,7 +175,12 @@ func (r *Run) binop(op token.Token, t types.Type, x, y Value) Value {
 			}
 			return tBVCmp("bvuge", x, yt)
 		}
+	case FSym:
+		return r.fsymBin(op)
 	case F64:
+		if _, ok := y.(FSym); ok {
+			return r.fsymBin(op)
+		}
 		yf := y.(F64)
 		switch op {
 		case token.ADD:
@@ -212,6 +222,16 @@ func (r *Run) binop(op token.Token, t types.Type, x, y Value) Value {
 		}
 	}
 	panic(unsupported(fmt.Sprintf("binop %s on %T,%T", op, x, y)))
+}
+
+func (r *Run) fsymBin(op token.Token) Value {
+	switch op {
+	case token.ADD, token.SUB, token.MUL, token.QUO:
+		return FSym{}
+	case token.LSS, token.LEQ, token.GTR, token.GEQ:
+		return r.fresh(boolSort, "fcmp")
+	}
+	panic(unsupported("float op " + op.String() + " on untracked float"))
 }
 
 func (r *Run) strConcat(a, b Str) Value {
@@ -287,7 +307,12 @@ func (r *Run) eqVal(x, y Value) *Term {
 		return mkBool(isNilish(y))
 	case *Term:
 		return tEq(x, y.(*Term))
+	case FSym:
+		return r.fresh(boolSort, "fcmp")
 	case F64:
+		if _, ok := y.(FSym); ok {
+			return r.fresh(boolSort, "fcmp")
+		}
 		return mkBool(x == y.(F64))
 	case Str:
 		return r.strEq(x, y.(Str))
@@ -462,7 +487,7 @@ func (r *Run) conv(tDst, tSrc types.Type, x Value) Value {
 			}
 			if isFloat(ud) {
 				if !t.Const {
-					panic(unsupported("symbolic int to float"))
+					return FSym{}
 				}
 				if signed {
 					return F64(float64(t.Signed()))
@@ -477,6 +502,14 @@ func (r *Run) conv(tDst, tSrc types.Type, x Value) Value {
 			}
 		}
 		if isFloat(us) {
+			if _, ok := x.(FSym); ok {
+				if isFloat(ud) {
+					return x
+				}
+				if wd, _, ok := isInt(ud); ok {
+					return r.fresh(bvSort(wd), "f2i")
+				}
+			}
 			f := float64(x.(F64))
 			if isFloat(ud) {
 				if ud.(*types.Basic).Kind() == types.Float32 {
